@@ -59,7 +59,7 @@ func (s *scope) add(name string, t *Ty) { s.vars = append(s.vars, svar{name, t})
 // sometimes some it does not need.
 func (g *gen) conv(t *Ty, x string) string {
 	s := g.tn(t)
-	need := t.Name == "" && (t.K == KPtr || t.K == KFunc || t.K == KChan && t.Dir == 1)
+	need := t.Name == "" && (t.K == KPtr || t.K == KFunc || t.K == KChan && t.Dir == 1) || t.Opaque
 	if need || g.chance(15, "convparen") {
 		if !need {
 			g.feat("paren_conv")
@@ -74,6 +74,12 @@ var intLits = []string{"0", "1", "2", "3", "7", "10", "0x10", "1_0", "0b11", "'a
 
 // simple returns a minimal expression of exactly type t.
 func (g *gen) simple(t *Ty) string {
+	if t.Opaque {
+		if t.nillable() {
+			return g.conv(t, "nil")
+		}
+		return "(*new(" + t.Name + "))"
+	}
 	u := t.u()
 	plain := !t.Named && t.K != KTParam
 	switch u.K {
@@ -83,7 +89,7 @@ func (g *gen) simple(t *Ty) string {
 				return v
 			}
 		}
-		return "*new(" + g.tn(t) + ")"
+		return "(*new(" + g.tn(t) + "))"
 	case KBool:
 		b := pick(g, "bool", "true", "false")
 		if plain {
@@ -135,7 +141,16 @@ func (g *gen) simple(t *Ty) string {
 	case KFunc, KIface:
 		return g.conv(t, "nil")
 	}
-	return "*new(" + g.tn(t) + ")"
+	return "(*new(" + g.tn(t) + "))"
+}
+
+// hdr makes an expression safe for the header of an if, for or switch
+// statement, where a composite literal must not appear at the top level.
+func hdr(e string) string {
+	if strings.Contains(e, "{") {
+		return "(" + e + ")"
+	}
+	return e
 }
 
 // val returns an expression of exactly type t.
@@ -145,7 +160,7 @@ func (g *gen) val(t *Ty, d int) string {
 			return v
 		}
 	}
-	if d <= 0 || g.chance(25, "simple") {
+	if d <= 0 || t.Opaque || g.chance(25, "simple") {
 		return g.simple(t)
 	}
 	if g.chance(6, "parenexpr") {
@@ -153,7 +168,7 @@ func (g *gen) val(t *Ty, d int) string {
 		return "(" + g.val(t, d-1) + ")"
 	}
 	if g.chance(5, "newderef") {
-		return "*new(" + g.ts(t) + ")"
+		return "(*new(" + g.ts(t) + "))"
 	}
 	if g.chance(5, "funclit_call") && t.K != KTParam {
 		g.feat("funclit_called")
@@ -272,7 +287,7 @@ func (g *gen) nonconst(t *Ty) string {
 		return v
 	}
 	if g.flip("ncnew") {
-		return "*new(" + g.ts(t) + ")"
+		return "(*new(" + g.ts(t) + "))"
 	}
 	g.feat("funclit_called")
 	return "func() " + g.tn(t) + " { return " + g.simple(t) + " }()"
@@ -352,12 +367,12 @@ func (g *gen) lit(t *Ty, d int) string {
 		var parts []string
 		if g.flip("keyed") {
 			for _, f := range u.Fields {
-				if g.chance(70, "setfield") {
+				if f.Name != "_" && g.chance(70, "setfield") {
 					fn := f.Name
 					if f.Embedded {
 						fn = embeddedName(f.T)
 					}
-					parts = append(parts, fn+": "+elem(f.T))
+					parts = append(parts, fn+": "+g.arg(f.T, d-1))
 				}
 			}
 		} else {
@@ -366,7 +381,7 @@ func (g *gen) lit(t *Ty, d int) string {
 					// blank fields cannot be set positionally in a useful way; fall back to the keyed form
 					return name + "{}"
 				}
-				parts = append(parts, elem(f.T))
+				parts = append(parts, g.arg(f.T, d-1))
 			}
 		}
 		return name + "{" + strings.Join(parts, ", ") + "}"
@@ -562,7 +577,8 @@ func (g *gen) anyType(d int) *Ty {
 		case 5, 6:
 			if len(g.pool) > 0 {
 				t := g.pool[g.intn(0, len(g.pool)-1, "pooltype")]
-				if !t.Test || g.inTest() {
+				if !t.open && (!t.Test || g.inTest()) {
+					g.dep(t.unit)
 					return t
 				}
 			}
